@@ -69,7 +69,7 @@ def main():
         res = cstark.run(args.prop, args.tier)
     else:
         import c17
-        res = c17.run(args.tier)
+        res = c17.run(args.tier, args.only.split(",") if args.only else None)
     res["repo"] = common.REPO
     res["seed"] = common.SEED
     res["wall_s"] = round(time.time() - t0, 2)
